@@ -43,7 +43,9 @@ func (p *mimePart) Bytes() []byte {
 }
 
 func (p *mimePart) IsMultipart() bool { return strings.EqualFold(p.Type, "multipart") }
-func (p *mimePart) IsMessage() bool   { return strings.EqualFold(p.Type, "message") && strings.EqualFold(p.Sub, "rfc822") }
+func (p *mimePart) IsMessage() bool {
+	return strings.EqualFold(p.Type, "message") && strings.EqualFold(p.Sub, "rfc822")
+}
 
 type mimeGen struct {
 	rng      *rand.Rand
